@@ -223,7 +223,8 @@ def run_c05(ctx):
     viol = list(r["violations"])
     sess_tap = 0
     if "infra_error" not in r3:
-        viol += [v for v in r3["violations"] if v["key"].startswith("commitment:")]
+        # ... and the size rule (33+32m bytes, m <= 128), which is enforced where the session is configured
+        viol += [v for v in r3["violations"] if v["key"].startswith("commitment:") or "control block" in v["key"]]
         sess_tap = r3["by_type"].get("p2tr-script", 0)
     c = r["classes"]
     cov = {
@@ -237,7 +238,7 @@ def run_c05(ctx):
     if c.get("valid:valid", 0) < 10 or len(c) < 8:
         vac = "vacuous exploration: %s" % c
     return dict(level="model_checking", coverage=cov, violations=viol,
-                assumptions=["oracle: taproot_verify() in ref/refcodec.hpp on OpenSSL EC arithmetic; every intermediate m_k is compared with the BIP341 branch hash", "size-invalid control blocks are C03's refusal cases (checked there)"],
+                assumptions=["oracle: taproot_verify() in ref/refcodec.hpp on OpenSSL EC arithmetic; every intermediate m_k is compared with the BIP341 branch hash", "size-invalid control blocks (1, 16, 31 stray bytes, one byte short) are refusal cases of the session generator shared with C03 and are counted here as well"],
                 summary="%d commitments, %d Iterate() steps, %d sessions" % (r["cases"], r["iterate_steps"], sess_tap), infra_error=vac)
 
 
@@ -349,7 +350,7 @@ def _lazy(modname, fn):
 
 
 PROPS = {
-    "C15": dict(targets=["btcdeb", "btcc", "tap", "btcdeb_tty"], asan_targets=["btcdeb", "btcc", "tap", "btcdeb_tty"], run=_lazy("c15_crash", "run"), replay=_lazy("c15_crash", "replay")),
+    "C15": dict(targets=["btcdeb", "btcc", "tap", "btcdeb_tty"], asan_targets=["btcdeb", "btcc", "tap", "btcdeb_tty", "mc_bounds"], run=_lazy("c15_crash", "run"), replay=_lazy("c15_crash", "replay")),
     "C12": dict(targets=["btcdeb", "btcdeb_tty", "mc_refcli", "mc_gen"], run=_lazy("c12_listing", "run"), replay=_lazy("c12_listing", "replay")),
     "C08": dict(targets=["btcdeb", "btcdeb_tty", "mc_refcli"], run=_lazy("c08_batch", "run"), replay=_lazy("c08_batch", "replay")),
     "C09": dict(targets=["btcdeb", "btcdeb_tty", "mc_refcli", "mc_script"], run=run_c09, replay=replay_c09),
